@@ -609,7 +609,7 @@ class CGenerator:
             print("+++++++++ ", f)
             filename = os.path.join(self.output_gen_file_dir, f)
             os.makedirs(os.path.dirname(filename), exist_ok=True)
-            with open(filename, 'w') as writer:
+            with open(filename, 'w', errors='surrogateescape') as writer:
                 for line in filenames_to_lines[f]:
                     line = line.replace('\t',"    ") # Last filter! Convert tabs to 4 spaces...
                     writer.write(line)
